@@ -411,7 +411,7 @@ class Machine:
         self.encoded = set()       # item keys actually executed
         self.models_used = set()   # contract models actually used
         self._dyn = {}; self._clo = {}
-        self.split_depth = None; self.splits = []
+        self.split_depth = None; self.splits = []; self.domains = {}
         global ZST_DEFS, NUP
         ZST_DEFS = prog.closure_zst; NUP = prog.closure_nup
         from . import models
@@ -436,6 +436,22 @@ class Machine:
             if c is True: return i
         live = [i for i, c in enumerate(cs) if c is not False]
         if not live: raise Dead()
+        dm = self._domain_test(cs) if (self.domains and len(cs) == 2) else None
+        if dm is not None:
+            # `var == const` on a variable with a declared finite domain: decided from the domain, no solver call
+            key, val, dom, eqi = dm            # cs[eqi] is the equality, cs[1 - eqi] its negation
+            if val not in dom: return 1 - eqi
+            if len(dom) == 1: return eqi
+            if self.tpos < len(self.trace):
+                i = self.trace[self.tpos]; self.tpos += 1
+            else:
+                if self.split_depth is not None and len(self.trace) >= self.split_depth:
+                    for j in (0, 1): self.splits.append(self.trace + [j])
+                    raise Split()
+                self.work.append(self.trace + [1]); self.stats['forks'] += 1
+                i = 0; self.trace.append(i); self.tpos += 1
+            self.domains[key] = {val} if i == eqi else dom - {val}
+            self.pc.append(cs[i]); self.solver.add(cs[i]); return i
         if self.tpos < len(self.trace):
             i = self.trace[self.tpos]; self.tpos += 1
             self.pc.append(cs[i]); self.solver.add(cs[i]); return i
@@ -455,6 +471,25 @@ class Machine:
         self.trace.append(i); self.tpos += 1
         self.pc.append(cs[i]); self.solver.add(cs[i])
         return i
+
+    def declare_domain(self, var, values):
+        """`var` (a fresh bit-vector constant) ranges over `values` and the code under analysis only ever tests it for equality
+        with constants: such tests are then decided by domain bookkeeping instead of solver calls.  The constraint is also assumed."""
+        self.assume(z3.Or([var == v for v in values]))
+        self.domains[var.get_id()] = set(values)
+
+    def _domain_test(self, cs):
+        c = cs[0]; eqi = 0
+        if not z3.is_expr(c): return None
+        if z3.is_not(c): c = c.arg(0); eqi = 1
+        elif z3.is_distinct(c) and c.num_args() == 2: eqi = 1
+        if not (z3.is_eq(c) or (eqi == 1 and z3.is_distinct(c))): return None
+        a, b = c.arg(0), c.arg(1)
+        if z3.is_bv_value(a): a, b = b, a
+        if not (z3.is_bv_value(b) and z3.is_const(a) and a.decl().kind() == z3.Z3_OP_UNINTERPRETED): return None
+        dom = self.domains.get(a.get_id())
+        if dom is None: return None
+        return a.get_id(), b.as_long(), dom, eqi
 
     def enum_int(self, term, lo, hi):
         """fork over the feasible values of bit-vector `term` within [lo, hi] (model-based enumeration: one query per
@@ -515,7 +550,7 @@ class Machine:
         npaths = 0
         while self.work:
             self.trace = self.work.pop(); self.tpos = 0
-            self.pc = []; self.events = []; self.steps = 0; self.nfresh = 0
+            self.pc = []; self.events = []; self.steps = 0; self.nfresh = 0; self.domains = {}
             self.solver.reset(); self.solver.set('timeout', 20000)
             for c in self.base_constraints: self.solver.add(c)
             pr = PathResult(); pr.panic = None; pr.result = None; pr.inconclusive = None; pr.extra = None
@@ -1003,7 +1038,12 @@ class Machine:
         if key is None:
             parts = n.split('::')
             if len(parts) >= 2 and not n.startswith('<'):
-                c2 = [k2 for (ty, tr, me), k2 in self.prog.impl.items() if ty == lastseg(parts[-2]) and me == parts[-1]]
+                idx = getattr(self.prog, '_impl_by_ty_me', None)
+                if idx is None:
+                    idx = {}
+                    for (ty, tr, me), k2 in self.prog.impl.items(): idx.setdefault((ty, me), []).append(k2)
+                    self.prog._impl_by_ty_me = idx
+                c2 = idx.get((lastseg(parts[-2]), parts[-1]), [])
                 if len(c2) == 1: key = c2[0]
         if key is None:
             # trait default method (static dispatch to a non-overridden method)
